@@ -87,6 +87,7 @@ type FnEnc struct {
 	modGrew             bool
 	curLoops            []*loopInfo // loops containing the current block (this function) + parent's
 	sitePrefix          string
+	curArgs             []Val // arguments of the contract call being applied (assigns anything)
 	freeVars            []Val
 	defers              []*ssa.Defer
 	blockOf             *ssa.BasicBlock
